@@ -268,7 +268,7 @@ def immutability(i):
                 expr_parser.evaluate_transaction(src, txn, data_sources=rows)
             except expr_parser.ExpressionError:
                 pass
-        ok = expr_parser._expression_cache.get(src) is tree
+        ok = expr_parser.parse_expression(src) is tree
         after = list(ast.walk(tree))
         ok = ok and len(after) == len(snap)
         for (n, t, fields), n2 in zip(snap, after):
